@@ -38,8 +38,17 @@ def work(job):
                 cex.append({"kind": "accepted_mismatch" if out["accepted"] else "rejected_valid", "assignment": a, "concrete": X.render_concrete(ktc.PRELUDE + job["text"], a), "phase": out.get("phase"), "files": job.get("files")})
             elif res != z3.unsat: cex.append({"kind": "unknown"})
             if len(samples) < 2: samples.append({"pc": [str(c)[:80] for c in pc][:6], "accepted": out["accepted"], "verdict": str(res)})
+        disagree = []; ndiff = 0
+        for pc, (kind, out) in r["paths"]:
+            if kind != "ok": continue
+            a = _assign(r, pc, S)
+            if not a and S: continue
+            conc = X.render_concrete(ktc.PRELUDE + job["text"], a)
+            ok, nout = native_accepts(k.pl.art["sylt"], conc, job.get("files")); ndiff += 1
+            if not ok and "syntax error" in nout: continue      # the concrete spelling of a choice node does not parse in this context (e.g. a do-block as the only statement of a case arm): nothing to compare
+            if ok != out["accepted"]: disagree.append({"assignment": a, "kernel": "accepted" if out["accepted"] else "rejected (%s)" % out.get("phase"), "native": "accepted" if ok else "rejected"})
         return {"name": job["name"], "status": "ok", "paths": len(r["paths"]), "accepted": acc, "rejected": rej, "panics": panics, "cex": cex, "queries": nq + r["queries"], "solver_s": solver_s,
-                "steps": r["steps"], "wall_s": time.time() - t0, "samples": samples, "core": job.get("core", job["name"]), "placement": job.get("placement", "")}
+                "steps": r["steps"], "wall_s": time.time() - t0, "samples": samples, "core": job.get("core", job["name"]), "placement": job.get("placement", ""), "disagree": disagree[:5], "native_differential": ndiff}
     except Exception as e:
         return {"name": job["name"], "status": "engine_error", "why": "%s: %s %s" % (type(e).__name__, str(e)[:300], traceback.format_exc()[-700:])}
 
@@ -65,6 +74,9 @@ def run_check(pid, tier, jobs, t0, functions, bounds, assumptions, sig_keys=None
         if r["status"] != "ok":
             fnd.undecided("%s: %s %s" % (r["name"], r["status"], r.get("why", "")[:400])); continue
         for k in tot: tot[k] += r.get(k, 0)
+        replayed += r.get("native_differential", 0)
+        for dg in r.get("disagree", []):
+            fnd.undecided("%s: the front end executed from MIR says %s, the native binary %s for %s (the encoding disagrees with the implementation)" % (r["name"], dg["kernel"], dg["native"], dg["assignment"]))
         if (r["accepted"] == 0 or (r["rejected"] == 0 and not r["cex"])) and not any(r["name"].startswith(v) for v in allow_vacuous):
             fnd.undecided("vacuity: template %s has %d accepted and %d rejected paths" % (r["name"], r["accepted"], r["rejected"]))
         for c in r["cex"]:
